@@ -370,15 +370,17 @@ class TelstateDataSource(DataSource):
         # Collect sensors
         sensors = {}
         namespace_ranks = {}
+        # The keys are full key names, so look them up in the root namespace (not through the view again)
+        root = telstate.root()
         for key in telstate.keys():
-            if telstate.key_type(key) == katsdptelstate.KeyType.MUTABLE:
+            if root.key_type(key) == katsdptelstate.KeyType.MUTABLE:
                 sensor_name = _shorten_key(telstate, key)
                 if sensor_name:
                     # If several namespaces define the sensor, the most specific one (earliest prefix) wins
                     rank = telstate.prefixes.index(key[:len(key) - len(sensor_name)])
                     if rank <= namespace_ranks.get(sensor_name, rank):
                         namespace_ranks[sensor_name] = rank
-                        sensors[sensor_name] = TelstateSensorGetter(telstate, key)
+                        sensors[sensor_name] = TelstateSensorGetter(root, key)
         metadata = AttrsSensors(telstate, sensors)
         if chunk_store is not None or timestamps is None:
             chunk_info = telstate['chunk_info']
